@@ -31,7 +31,11 @@ RULE = ("periodic structures from findlib.planted_structure (1-5 planted copies 
         "orientation hints none (75 %) or valid full / partial triples; return_num_matches on (85 %) / off; 20 % of the structures "
         "declare 1-2 spare atom types at the end of their tables that no atom uses; a stream with atol in {.2,.25,.3} and copies with one atom displaced radially "
         "by 0.10..atol/2 (must be matched) resp. atol in {.01,.02} and displacement 2..2.5 atol < 0.05 (must NOT be matched), "
-        "judged against the construction and against find_pattern_in_structure called with the same arguments; TWO-STEP histories: a first replacement "
+        "judged against the construction and against find_pattern_in_structure called with the same arguments; 30 % of the cases give the replacement extra "
+        "per-atom / per-bond columns the structure lacks (CIF-style labels; a bond term with an extra column) and / or the "
+        "structure an own extra column; in 30 % the three objects handed in are Atoms.copy() copies and the originals are "
+        "watched too; inputs are compared attribute by attribute (deep snapshot incl. label sets) and must stay "
+        "self-consistent; TWO-STEP histories: a first replacement "
         "that replaces nothing (fraction 0, or a search pattern that is absent) or half of the matches, then an ordinary "
         "replacement on its result (re-tagged), the full oracle and the tie applied to each step relative to its own input; f in {0,.1,.25,.5,.75,1} or random; replace_all on/off; random seeds. "
         "Thorough adds the full grid mode x shared x f(1/16 steps) x replace_all. "
@@ -86,7 +90,7 @@ def oracle_replace(inp, out):
     M = len(found)
     used = [tuple(u["idx"]) for u in out["used"]]
     if not out["inputs_unchanged"]:
-        return "the structure or a pattern handed in was modified by the call", None
+        return "the structure or a pattern handed in was modified by the call", out.get("inputs_changed_fields")
     # "the number found": found with the CALLER's tolerance.  Independent expectation from the construction of the case
     # (copies distorted clearly inside / clearly outside the requested atol, margins >= 2x) ...
     if inp.get("expect"):
@@ -216,20 +220,60 @@ def oracle_replace(inp, out):
     return None
 
 
-def run_replace_kw(sj, pj, rj, atol, fraction, replace_all, ignore, hints, seed, return_num, rj_src=None):
+def deep_snapshot(obj):
+    """every attribute of a real Atoms object, by value (arrays as nested lists, label sets as lists): what must be
+    identical before and after a call that promises to leave the object alone"""
+    import numpy as np
+
+    def norm(v):
+        if isinstance(v, np.ndarray):
+            return ["ndarray", list(v.shape), [norm(x) for x in v.tolist()] if v.dtype == object else v.tolist()]
+        if isinstance(v, (list, tuple)):
+            return [norm(x) for x in v]
+        if isinstance(v, dict):
+            return {str(k): norm(x) for k, x in v.items()}
+        if isinstance(v, (str, int, float, bool)) or v is None:
+            return v
+        try:
+            return [type(v).__name__, [norm(x) for x in v]]        # OrderedSet and other iterables
+        except TypeError:
+            return repr(v)
+    return {k: norm(v) for k, v in vars(obj).items()}
+
+
+def self_consistent(obj):
+    """the object still passes the library's own consistency assertion"""
+    try:
+        with core.quiet():
+            obj.assert_arrays_are_consistent_sizes()
+        return True
+    except AttributeError:
+        return True
+    except Exception:
+        return False
+
+
+def run_replace_kw(sj, pj, rj, atol, fraction, replace_all, ignore, hints, seed, return_num, rj_src=None, via_copy=False):
     """findlib.run_replace with `return_num_matches` selectable: with False only the structure comes back
     (out["n"] is then None).  Same recording of the found matches, of the random.sample selection and of
     inputs_unchanged."""
     import random
     import numpy as np
     import mofun.mofun as mm
-    if return_num and rj_src is None:
-        return fl.run_replace(sj, pj, rj, atol=atol, fraction=fraction, replace_all=replace_all, ignore=ignore, hints=hints, seed=seed)
     s, p = core.atoms_from_json(sj), core.atoms_from_json(pj)
     # an EMPTY replacement that still carries type tables is rebuilt as the real object it stands for
     r = core.atoms_from_json(rj) if rj_src is None else g.empty_by_deletion(rj_src)
     if core.same(core.canon_atoms(r), rj) is not None:
         raise RuntimeError("harness: the rebuilt replacement object is not the one described by the case")
+    # the objects handed in may themselves be copies (Atoms.copy()) of objects the caller keeps: neither the copies
+    # nor their originals may change
+    originals = []
+    if via_copy:
+        originals = [s, p, r]
+        with core.quiet():
+            s, p, r = s.copy(), p.copy(), r.copy()
+    watched = [s, p, r] + originals
+    before = [deep_snapshot(o) for o in watched]
     rec = {}
     real_find, real_sample = mm.find_pattern_in_structure, random.sample
 
@@ -271,6 +315,15 @@ def run_replace_kw(sj, pj, rj, atol, fraction, replace_all, ignore, hints, seed,
         out["err"] = res["err"]
     out["inputs_unchanged"] = (core.same(core.canon_atoms(s), sj) is None and core.same(core.canon_atoms(p), pj) is None
                                and core.same(core.canon_atoms(r), rj) is None)
+    # ... and attribute by attribute (label sets, tables, anything the canonical dump does not show), for the objects
+    # handed in and for the objects they were copied from; and they must still be self-consistent
+    after = [deep_snapshot(o) for o in watched]
+    changed = sorted(set("%s.%s" % (["structure", "search", "replacement", "structure(original of the copy)",
+                                     "search(original of the copy)", "replacement(original of the copy)"][i], k)
+                         for i, (b, a) in enumerate(zip(before, after)) for k in set(b) | set(a) if b.get(k) != a.get(k)))
+    if changed or not all(self_consistent(o) for o in watched):
+        out["inputs_unchanged"] = False
+        out["inputs_changed_fields"] = changed or ["an input object is no longer self-consistent"]
     if out["found"] is not None:
         idx, pos, quats = out["found"]
         order = out["sample"] if out["sample"] is not None else list(range(len(idx)))
@@ -304,7 +357,7 @@ def real(inp):
 def _real(inp):
     return run_replace_kw(inp["sj"], inp["pj"], inp["rj"], atol=inp["atol"], fraction=inp["f"], replace_all=inp["replace_all"],
                           ignore=inp.get("ignore", False), hints=tuple(inp.get("hints") or (None, None, None)), seed=inp["seed"],
-                          return_num=inp.get("return_num", True), rj_src=inp.get("rj_src"))
+                          return_num=inp.get("return_num", True), rj_src=inp.get("rj_src"), via_copy=bool(inp.get("via_copy")))
 
 
 def one(inp):
@@ -325,7 +378,8 @@ def tags_of(inp, out):
          "unwrapped-atoms:%s" % ("yes" if i.get("outside") else "no"), "atol:%g" % inp["atol"],
          "hints:%s" % "".join("-" if h is None else "x" for h in (inp.get("hints") or [None] * 3)),
          "return_num_matches:%s" % inp.get("return_num", True), "spare-types:%s" % bool(i.get("spare_types")),
-         "empty-kind:%s" % i.get("empty_kind", "-"),
+         "empty-kind:%s" % i.get("empty_kind", "-"), "extra-columns:%s" % (i.get("extras") or "none"),
+         "inputs-are-copies:%s" % bool(inp.get("via_copy")),
          "distorted-copies:%s" % (i["distorted"]["regime"] if i.get("distorted") else "no"), "step:%s" % (i.get("step", "single") if i.get("step") != 1 else "1:" + i.get("step1kind", "?"))]
     if i.get("step") == 2:
         t.append("step2-after:" + str(i.get("step1")))
